@@ -286,7 +286,7 @@ func runVariant(def *PropertyDef, v Variant, repo, verifDir string) VariantResul
 	text := string(out)
 	hit := ""
 	for _, line := range strings.Split(text, "\n") {
-		if strings.Contains(line, " "+v.Rule) && (strings.Contains(line, "violated") || strings.Contains(line, "undecided")) &&
+		if strings.Contains(line, " "+v.Rule) && (strings.Contains(line, "violated") || strings.Contains(line, "undecided") || strings.Contains(line, "instance-floor")) &&
 			(v.Expect == "" || strings.Contains(line, v.Expect)) {
 			hit = line
 			break
